@@ -12,10 +12,13 @@ import (
 	"flag"
 	"fmt"
 	"io"
+	"net"
 	"net/http"
 	"net/http/httptest"
+	"net/url"
 	"runtime"
 	"strings"
+	"time"
 
 	"github.com/ipfs/go-cid"
 	"github.com/ipni/go-libipni/apierror"
@@ -64,8 +67,45 @@ func pathFor(pk string) string {
 		return "/multihash/not_base58_0OIl!"
 	case "not-a-multihash":
 		return "/multihash/" + hex.EncodeToString([]byte{0x12, 0x40, 0x01})
+	case "double-slash":
+		return "/multihash//" + mh.B58String()
+	case "empty-path":
+		return ""
 	}
 	return "/"
+}
+
+// rawGet writes a GET request with the request target in absolute form (scheme://host + path, the path possibly empty)
+// and reads the response.
+func rawGet(base, p string, h http.Header) (*http.Response, error) {
+	u, err := url.Parse(base)
+	if err != nil {
+		return nil, err
+	}
+	conn, err := net.DialTimeout("tcp", u.Host, 2*time.Second)
+	if err != nil {
+		return nil, err
+	}
+	conn.SetDeadline(time.Now().Add(5 * time.Second))
+	var b bytes.Buffer
+	fmt.Fprintf(&b, "GET %s%s HTTP/1.1\r\nHost: %s\r\nConnection: close\r\n", base, p, u.Host)
+	for _, v := range h.Values("Accept") {
+		fmt.Fprintf(&b, "Accept: %s\r\n", v)
+	}
+	b.WriteString("\r\n")
+	if _, err := conn.Write(b.Bytes()); err != nil {
+		conn.Close()
+		return nil, err
+	}
+	resp, err := http.ReadResponse(bufio.NewReader(conn), nil)
+	if err != nil {
+		conn.Close()
+		return nil, err
+	}
+	body, _ := io.ReadAll(resp.Body)
+	conn.Close()
+	resp.Body = io.NopCloser(bytes.NewReader(body))
+	return resp, nil
 }
 
 // results returns n provider results exercising nil / empty / binary context IDs and metadata and 0..2 addresses.
@@ -200,7 +240,22 @@ func Run(args []string) *rep.Report {
 			}
 			req.Header.Add("Accept", strings.Join(vals, ", "))
 		}
-		resp, err := http.DefaultClient.Do(req)
+		var resp *http.Response
+		var err error
+		if tc.Pk == "empty-path" || tc.Pk == "double-slash" {
+			// written to the wire by hand: net/http's client would send "/" for an empty path and might clean the doubled slash
+			resp, err = rawGet(srvs[tc.Prefer].URL, pathFor(tc.Pk), req.Header)
+			if err != nil {
+				if handlerPanic != "" || strings.Contains(err.Error(), "EOF") {
+					bad("panic", tc, fmt.Sprintf("no response to a request with %s (%v); handler panic: %q", tc.Pk, err, handlerPanic))
+					return nil
+				}
+				r.Inconclusive++
+				return nil
+			}
+		} else {
+			resp, err = http.DefaultClient.Do(req)
+		}
 		if err != nil {
 			r.Inconclusive++
 			return nil
@@ -283,7 +338,21 @@ func Run(args []string) *rep.Report {
 			}
 		}
 	}
-	// API errors keep status and message through encode / decode
+	// API errors keep status and message through encode / decode -- also an error that has only a status (what the writer returns
+	// for an empty result set) and one wrapped by the caller
+	for _, st := range []int{400, 404, 429, 500, 503} {
+		bare := apierror.New(nil, st)
+		d := apierror.DecodeError(apierror.EncodeError(bare))
+		var ae *apierror.Error
+		if !errors.As(d, &ae) || ae.Status() != st || d.Error() != bare.Error() || d.Error() == "" {
+			r.Diverge(rep.Divergence{Key: "apierror-round-trip", Detail: fmt.Sprintf("status-only error %d (%q) came back as %q", st, bare.Error(), d)})
+		}
+		wrapped := fmt.Errorf("looking up providers: %w", apierror.New(errors.New("inner cause"), st))
+		d = apierror.DecodeError(apierror.EncodeError(wrapped))
+		if !errors.As(d, &ae) || ae.Status() != st || !strings.Contains(d.Error(), "looking up providers") || !strings.Contains(d.Error(), "inner cause") {
+			r.Diverge(rep.Divergence{Key: "apierror-round-trip", Detail: fmt.Sprintf("wrapped error with status %d (%q) came back as %q", st, wrapped, d)})
+		}
+	}
 	for _, st := range []int{400, 404, 429, 500, 503} {
 		for _, msg := range []string{"plain message", "with \"quotes\" and \n newline", "ünïcode"} {
 			e := apierror.New(errors.New(msg), st)
